@@ -4,7 +4,9 @@ From PS Require Import Model.TimeCache Model.Dedup Run.Verdict.
 Local Open Scope Z_scope.
 
 (* ---- (a) the time cache alone ---- *)
-Inductive tcop := TAdd (i : id) (r : bool) | THas (i : id) (r : bool) | TSleep (d : Z).
+Inductive tcop := TAdd (i : id) (r : bool) | THas (i : id) (r : bool) | TSleep (d : Z)
+| TAddC (i : id) (rs : list bool).   (* several Add calls of one id made at the same instant from different goroutines *)
+Definition ntrue (l : list bool) : nat := length (filter (fun b => b) l).
 Record tcase := { t_strat : strategy; t_ttl : Z; t_interval : Z; t_ops : list tcop }.
 
 Fixpoint tc_advance (fuel : nat) (c : tc) (clock ns interval target : Z) : tc * Z * Z :=
@@ -29,6 +31,16 @@ Fixpoint tmon (sg : strategy) (ttl interval : Z) (ops : list tcop) (clock : Z) (
           else tmon sg ttl interval r clock (match sg, res with FirstSeen, false => last | _, _ => setk i clock last end) (S idx)
       | None => if res then tmon sg ttl interval r clock (setk i clock last) (S idx) else Some (idx, 3%nat)
       end
+  | TAddC i rs :: r =>
+      (* however the calls interleave, at most one of them adds the id; if it was there (inside its window) none does *)
+      let any := Nat.ltb 0 (ntrue rs) in
+      if Nat.ltb 1 (ntrue rs) then Some (idx, 4%nat)
+      else match lookup i last with
+           | Some a =>
+               if (clock <=? a + ttl) && any then Some (idx, 1%nat)
+               else tmon sg ttl interval r clock (match sg, any with FirstSeen, false => last | _, _ => setk i clock last end) (S idx)
+           | None => if any then tmon sg ttl interval r clock (setk i clock last) (S idx) else Some (idx, 3%nat)
+           end
   | THas i res :: r =>
       match lookup i last with
       | Some a =>
@@ -46,6 +58,8 @@ Fixpoint texec (c : tc) (clock ns interval : Z) (ops : list tcop) (idx : nat) : 
                      if Bool.eqb b r then texec c' clock ns interval l (S idx) else VMismatch idx 1
   | THas i r :: l => let (b, c') := tc_has c i clock in
                      if Bool.eqb b r then texec c' clock ns interval l (S idx) else VMismatch idx 2
+  | TAddC i rs :: l => let (b, c') := tc_add c i clock in
+                       if Nat.eqb (ntrue rs) (if b then 1 else 0)%nat then texec c' clock ns interval l (S idx) else VMismatch idx 3
   | TSleep d :: l => let '(c', clock', ns') := tc_advance (S (S (Z.to_nat (d / interval)))) c clock ns interval (clock + d) in
                      texec c' clock' ns' interval l (S idx)
   end.
